@@ -4,17 +4,26 @@
 //	                      gated schedule replay of the REAL fsloop; goroutines park at the verifhook
 //	                      yield points (consumer top / gap / exit, closer waited / announced / closed),
 //	                      inside the callbacks and — the single producer — before every ReadDir and
-//	                      filter call, and are released one at a time in the order of the schedule
-//	loop gen <n>          n seeded case lines (random trees, filters, schedules + adversarial family)
-//	loop stress <quick|thorough>   ungated stress over tree shapes, limits 1..16, GOMAXPROCS
+//	                      filter call, and are released one at a time in the order of the schedule; the
+//	                      environment acts of the schedule are injected between tokens: x = scope Kill
+//	                      event, e = scope Error event (eventscope.Trigger -> Loop.KillSlot), t = the
+//	                      lifecycle's deadline (the private context is swapped for an expired one);
+//	                      w probes Loop.Wait (called on its own goroutine right after Run), D drains
+//	                      deterministically; the comparison with the model goes on after a kill
+//	loop gen <n>          n seeded case lines (random trees, filters, schedules + adversarial and kill families)
+//	loop stress <quick|thorough>   ungated stress over tree shapes, limits 1..16, GOMAXPROCS, random scope events
+//	loop lifecycle        the real jobsync.Lifecycle API against what the model's lifecycle transitions assume
 //	loop users <n>        the two real users: fshelper.Copy (Consumers: 1) and fsi18loader.Load
 //	loop facts            go/ast facts about Consumer.Loop and the closer as Lean data (see facts.go)
 package main
 
 import (
 	"bufio"
+	"bytes"
+	"context"
 	"fmt"
 	"os"
+	"reflect"
 	"runtime"
 	"sort"
 	"strconv"
@@ -22,13 +31,17 @@ import (
 	"sync"
 	"sync/atomic"
 	"time"
+	"unsafe"
 
 	"gcverif/internal/hx"
 
+	"github.com/goatcms/goatcore/app"
+	"github.com/goatcms/goatcore/app/scope/eventscope"
 	"github.com/goatcms/goatcore/filesystem"
 	"github.com/goatcms/goatcore/filesystem/filespace/memfs"
 	"github.com/goatcms/goatcore/filesystem/fsloop"
 	"github.com/goatcms/goatcore/verifhook"
+	"github.com/goatcms/goatcore/workers/jobsync"
 )
 
 // FS is the alias needed to embed the interface (it has a method named Filespace).
@@ -163,7 +176,16 @@ type sched struct {
 	gids     map[int64]string
 	nextCons int
 	kClosed  bool
+	kSeen    bool // the closer has passed producerPool.Wait (all producers have signed off)
 	timedOut bool
+	exits    int32 // consumers that have reached their deferred exit hook (atomic)
+	pGID     int64 // goroutine id of the (single) producer
+}
+
+func (s *sched) prodGID() int64 {
+	s.mu.Lock()
+	defer s.mu.Unlock()
+	return s.pGID
 }
 
 func newSched() *sched {
@@ -217,6 +239,7 @@ func (s *sched) hook(point string) {
 	case "fsloop.consumer.gap":
 		s.arrive(s.consThread(), "gap")
 	case "fsloop.consumer.exit":
+		atomic.AddInt32(&s.exits, 1)
 		s.arrive(s.consThread(), "exit")
 	case "fsloop.closer.waited":
 		s.arrive("k", "waited")
@@ -252,6 +275,42 @@ func (s *sched) waitFor(pred func() bool) bool {
 		s.cond.Wait()
 	}
 	return true
+}
+
+// waitForSlow is waitFor with a second, expensive predicate that is evaluated (outside the lock) only
+// when the cheap one has not become true within 2 ms, and then every 2 ms.
+func (s *sched) waitForSlow(pred func() bool, slow func() bool) bool {
+	start := time.Now()
+	for {
+		s.mu.Lock()
+		if pred() {
+			s.mu.Unlock()
+			return true
+		}
+		woke := false
+		t := time.AfterFunc(2*time.Millisecond, func() {
+			s.mu.Lock()
+			woke = true
+			s.cond.Broadcast()
+			s.mu.Unlock()
+		})
+		for !pred() && !woke {
+			s.cond.Wait()
+		}
+		ok := pred()
+		s.mu.Unlock()
+		t.Stop()
+		if ok {
+			return true
+		}
+		if slow() {
+			// the cheap predicate may have become true meanwhile: it wins
+			return true
+		}
+		if time.Since(start) > watchdog {
+			return false
+		}
+	}
 }
 
 func (s *sched) parkedAt(thread string) (string, bool) {
@@ -345,6 +404,10 @@ func (f *stubFS) resolve(p string) *node {
 
 func (f *stubFS) ReadDir(p string) ([]os.FileInfo, error) {
 	if f.sc != nil {
+		gid := curGID()
+		f.sc.mu.Lock()
+		f.sc.pGID = gid
+		f.sc.mu.Unlock()
 		f.sc.arrive("p", "list:"+p)
 	}
 	n := f.resolve(p)
@@ -555,7 +618,7 @@ func verdict(rec *recorder, sel []string, listFailsExpected int, listErrs []erro
 	}
 	for _, e := range listErrs {
 		if strictListing && !containsErr(errs, e) {
-			return "FAIL(listing-error-not-recorded:" + e.Error() + ")"
+			return "FAIL(listing-error-not-recorded:" + errStr(e) + ")"
 		}
 	}
 	if len(errs) == 0 {
@@ -574,6 +637,70 @@ func verdict(rec *recorder, sel []string, listFailsExpected int, listErrs []erro
 		}
 	}
 	return "ok"
+}
+
+// errStr is the canonical form of one entry of Loop.Errors()
+func errStr(e error) string {
+	switch x := e.(type) {
+	case *cbErr:
+		return "cb:" + x.item
+	case *listErr:
+		return "list:" + x.p
+	}
+	switch e {
+	case context.Canceled:
+		return "canceled"
+	case context.DeadlineExceeded:
+		return "deadline"
+	}
+	return "other"
+}
+
+// goroutineInChanSend reports whether goroutine gid is parked in a channel send (runtime.Stack header
+// "goroutine <gid> [chan send...]").  With every consumer parked or gone this state is stable: a send
+// on a buffered channel parks only when the buffer is full, and only a receive un-parks it.
+func goroutineInChanSend(gid int64) bool {
+	if gid <= 0 {
+		return false
+	}
+	buf := make([]byte, 1<<16)
+	for {
+		n := runtime.Stack(buf, true)
+		if n < len(buf) {
+			buf = buf[:n]
+			break
+		}
+		buf = make([]byte, 2*len(buf))
+	}
+	return bytes.Contains(buf, []byte("goroutine "+strconv.FormatInt(gid, 10)+" [chan send"))
+}
+
+// injectTimeout makes the loop's lifecycle look exactly as it does once its deadline has passed:
+// the deadline is the constant workers.DefaultTimeout (2 min) and the lifecycle is a private field, so
+// the harness replaces the lifecycle's context by one whose deadline has already expired (Done closed,
+// Err() = context.DeadlineExceeded).  Only called while every goroutine of the loop is parked.
+func injectTimeout(loop *fsloop.Loop) bool {
+	lv := reflect.ValueOf(loop).Elem().FieldByName("lifecycle")
+	if !lv.IsValid() || lv.Kind() != reflect.Ptr || lv.IsNil() {
+		return false
+	}
+	lv = reflect.NewAt(lv.Type(), unsafe.Pointer(lv.UnsafeAddr())).Elem()
+	lc, ok := lv.Interface().(*jobsync.Lifecycle)
+	if !ok {
+		return false
+	}
+	if lc.IsKilled() {
+		return true // the deadline passing after a cancel changes nothing
+	}
+	cv := reflect.ValueOf(lc).Elem().FieldByName("ctx")
+	if !cv.IsValid() || cv.Kind() != reflect.Interface {
+		return false
+	}
+	cv = reflect.NewAt(cv.Type(), unsafe.Pointer(cv.UnsafeAddr())).Elem()
+	ctx, cancel := context.WithDeadline(context.Background(), time.Now().Add(-time.Hour))
+	_ = cancel
+	cv.Set(reflect.ValueOf(ctx))
+	return lc.IsKilled()
 }
 
 func runGated(c *gcase) string {
@@ -610,12 +737,41 @@ func runGated(c *gcase) string {
 		data.OnDir = cb("d")
 	}
 	sel, listFails := selectedOf(&cfg, c.root, c.tree)
-	loop := fsloop.NewLoop(data, nil)
+	// a scope whenever the schedule sends events, and in half of the other cases
+	var scope app.EventScope
+	needScope := (len(c.sched)/2)%2 == 0
+	for _, t := range c.sched {
+		if t == "x" || t == "e" {
+			needScope = true
+		}
+	}
+	if needScope {
+		scope = eventscope.New()
+	}
+	loop := fsloop.NewLoop(data, scope)
 	runPath := c.root
 	if runPath == "./" && len(c.sched)%2 == 0 {
 		runPath = "" // Run("") means "./"
 	}
 	loop.Run(runPath)
+	// Wait is called at once, on its own goroutine; what it sees at the moment it returns is recorded
+	waitDone := make(chan struct{})
+	var activeAtWait, startedAtWait, exitedAtWait int32
+	go func() {
+		loop.Wait()
+		activeAtWait = atomic.LoadInt32(&rec.active)
+		startedAtWait = atomic.LoadInt32(&rec.started)
+		exitedAtWait = atomic.LoadInt32(&sc.exits)
+		close(waitDone)
+	}()
+	waitReturned := func() bool {
+		select {
+		case <-waitDone:
+			return true
+		default:
+			return false
+		}
+	}
 
 	var obs []string
 	hang := func(what string) string {
@@ -638,8 +794,9 @@ func runGated(c *gcase) string {
 		return hang("producer-start")
 	}
 	gone := make([]bool, c.n)
+	nGone := 0
 	prodDone := false
-	killed := false
+	prodBlocked := false
 	parkOf := func(t string) string {
 		sc.mu.Lock()
 		defer sc.mu.Unlock()
@@ -648,27 +805,38 @@ func runGated(c *gcase) string {
 		}
 		return ""
 	}
+	// settleP: the producer runs until it is parked at a gate, has finished (the closer's
+	// producerPool.Wait returned), or is blocked in a send on a full channel
+	settleP := func() bool {
+		ok := sc.waitForSlow(func() bool { return sc.cur["p"] != nil || sc.cur["k"] != nil },
+			func() bool { return goroutineInChanSend(sc.prodGID()) })
+		if !ok {
+			return false
+		}
+		sc.mu.Lock()
+		atGate := sc.cur["p"] != nil
+		finished := sc.cur["k"] != nil
+		sc.mu.Unlock()
+		prodBlocked = false
+		switch {
+		case atGate:
+		case finished:
+			prodDone = true
+		default:
+			prodBlocked = true
+		}
+		return true
+	}
 	stepP := func() (string, bool) {
 		if prodDone {
 			return "p:noop", true
 		}
+		if prodBlocked {
+			return "p:blocked", true
+		}
 		gate := parkOf("p")
 		sc.release("p")
-		if strings.HasPrefix(gate, "list:") {
-			if n := fs.resolve(gate[5:]); n == nil || !n.listable {
-				killed = true
-				return "p:" + gate, true
-			}
-		}
-		// next: the producer parks at its next gate, or it is done and the closer's Wait returns
-		ok := sc.waitFor(func() bool { return sc.cur["p"] != nil || sc.cur["k"] != nil })
-		if !ok {
-			return "p:" + gate, false
-		}
-		if parkOf("p") == "" {
-			prodDone = true
-		}
-		return "p:" + gate, true
+		return "p:" + gate, settleP()
 	}
 	stepK := func() (string, bool) {
 		switch parkOf("k") {
@@ -696,26 +864,31 @@ func runGated(c *gcase) string {
 		sc.release(name)
 		if at == "exit" {
 			gone[i] = true
+			nGone++
 			return name + ":gone", true
-		}
-		if strings.HasPrefix(at, "cb") && c.failcb[at[2:3]+at[4:]] {
-			killed = true
 		}
 		nx, ok := sc.parkedAt(name)
 		if !ok {
 			return name + ":?", false
 		}
+		if prodBlocked && !settleP() {
+			return name + ":" + nx, false
+		}
 		return name + ":" + nx, true
+	}
+	settled := func() bool {
+		sc.mu.Lock()
+		kc := sc.kClosed
+		sc.mu.Unlock()
+		return nGone == c.n && (kc || prodBlocked)
 	}
 	emit := func(o string, ok bool) bool {
 		obs = append(obs, o)
 		return ok
 	}
+	earlyWait := ""
 loopSched:
 	for _, tok := range c.sched {
-		if killed {
-			break
-		}
 		switch {
 		case tok == "p":
 			if !emit(stepP()) {
@@ -732,9 +905,62 @@ loopSched:
 				}
 			}
 		case tok == "P":
-			for j := 0; j < 100000 && !prodDone && !killed; j++ {
+			for j := 0; j < 100000 && !prodDone && !prodBlocked; j++ {
 				if !emit(stepP()) {
 					return hang("p")
+				}
+			}
+		case tok == "x":
+			if scope != nil {
+				scope.Trigger(app.KillEvent, nil)
+			}
+			obs = append(obs, "x:ok")
+		case tok == "e":
+			if scope != nil {
+				scope.Trigger(app.ErrorEvent, &cbErr{"scope-error-event"})
+			}
+			obs = append(obs, "e:ok")
+		case tok == "t":
+			if injectTimeout(loop) {
+				obs = append(obs, "t:ok")
+			} else {
+				obs = append(obs, "t:unsupported")
+			}
+		case tok == "w":
+			if nGone == c.n {
+				// every consumer has passed its exit hook: pool.Done follows, Wait must return
+				select {
+				case <-waitDone:
+					obs = append(obs, "w:returned")
+				case <-time.After(watchdog):
+					return hang("w")
+				}
+			} else {
+				// it must NOT have returned; yielding only raises the chance of seeing a wrong early return
+				for y := 0; y < 50 && !waitReturned(); y++ {
+					runtime.Gosched()
+				}
+				if waitReturned() {
+					obs = append(obs, "w:returned")
+					if earlyWait == "" {
+						earlyWait = fmt.Sprintf("FAIL(wait-returned-with-%d-of-%d-consumers-still-running)", c.n-nGone, c.n)
+					}
+				} else {
+					obs = append(obs, "w:pending")
+				}
+			}
+		case tok == "D":
+			for r := 0; r < 100000 && !settled(); r++ {
+				if !emit(stepP()) {
+					return hang("p")
+				}
+				for i := 0; i < c.n; i++ {
+					if !emit(stepC(i)) {
+						return hang("c" + strconv.Itoa(i))
+					}
+				}
+				if !emit(stepK()) {
+					return hang("k")
 				}
 			}
 		case strings.HasPrefix(tok, "c"):
@@ -753,7 +979,7 @@ loopSched:
 				continue loopSched
 			}
 			name := "c" + strconv.Itoa(i)
-			for j := 0; j < 8 && !killed && parkOf(name) != "gap"; j++ {
+			for j := 0; j < 8 && parkOf(name) != "gap"; j++ {
 				o, ok := stepC(i)
 				if !emit(o, ok) {
 					return hang(tok)
@@ -766,24 +992,21 @@ loopSched:
 			obs = append(obs, "bad-token")
 		}
 	}
-	killedInSched := killed
+	wasSettled := settled()
+	stuck := wasSettled && prodBlocked
 	// everything runs to completion
 	sc.setFree()
-	waitDone := make(chan struct{})
-	var activeAtWait int32
-	go func() {
-		loop.Wait()
-		activeAtWait = atomic.LoadInt32(&rec.active)
-		close(waitDone)
-	}()
 	steps := strings.Join(obs, " ")
 	select {
 	case <-waitDone:
 	case <-time.After(watchdog):
 		return steps + " | done=? wait=hang oracle=FAIL(wait-never-returned)"
 	}
-	if !sc.waitFor(func() bool { return sc.kClosed }) {
+	if !stuck && !sc.waitFor(func() bool { return sc.kClosed }) {
 		return steps + " | done=? wait=ok oracle=FAIL(closer-never-finished)"
+	}
+	if stuck && !goroutineInChanSend(sc.prodGID()) {
+		return steps + " | done=? wait=ok oracle=FAIL(producer-state-changed-after-all-consumers-left)"
 	}
 	errs := loop.Errors()
 	fs.mu.Lock()
@@ -793,14 +1016,31 @@ loopSched:
 	anyFailure := len(rec.cbErrs) > 0 || len(listErrs) > 0
 	doneCopy := append([]string(nil), rec.done...)
 	rec.mu.Unlock()
-	v := verdict(rec, sel, len(listFails), listErrs, errs, c.n, activeAtWait, anyFailure, true)
-	if killedInSched {
-		return steps + " !killed | killed oracle=" + v
+	v := verdict(rec, sel, len(listFails), listErrs, errs, c.n, activeAtWait, anyFailure, !stuck)
+	if v == "ok" && earlyWait != "" {
+		v = earlyWait
+	}
+	if v == "ok" && int(exitedAtWait) != c.n {
+		v = fmt.Sprintf("FAIL(wait-returned-with-%d-of-%d-consumers-not-at-exit)", c.n-int(exitedAtWait), c.n)
+	}
+	if v == "ok" && atomic.LoadInt32(&rec.started) != startedAtWait {
+		v = "FAIL(callback-started-after-wait-returned)"
+	}
+	sort.Strings(doneCopy)
+	if wasSettled {
+		es := make([]string, len(errs))
+		for i, e := range errs {
+			es[i] = errStr(e)
+		}
+		pr := "done"
+		if stuck {
+			pr = "stuck"
+		}
+		return steps + " | done=" + strings.Join(doneCopy, ";") + " errs=" + strings.Join(es, ";") + " wait=ok prods=" + pr + " oracle=" + v
 	}
 	if anyFailure || len(errs) > 0 {
 		return steps + " | killed oracle=" + v
 	}
-	sort.Strings(doneCopy)
 	return steps + " | done=" + strings.Join(doneCopy, ";") + " wait=ok oracle=" + v
 }
 
@@ -887,11 +1127,70 @@ func genFilter(r *hx.Rand, paths []string) string {
 	return "rej:" + strings.Join(rej, ";")
 }
 
+// wideCase: a tree wider than the channel capacity (ChanSize = 1000), so that the producer blocks in
+// its send; a failing callback or an environment act kills the lifecycle while it is blocked.
+func wideCase(r *hx.Rand) string {
+	nf := 1001 + r.Intn(12)
+	var b strings.Builder
+	b.WriteString("d(")
+	for i := 0; i < nf; i++ {
+		if i > 0 {
+			b.WriteByte(',')
+		}
+		fmt.Fprintf(&b, "w%04d:f", i)
+	}
+	b.WriteString(")")
+	n := 1 + r.Intn(2)
+	failcb := "-"
+	killTok := []string{"x", "e", "t"}[r.Intn(3)]
+	if r.Chance(1, 2) {
+		failcb = "f./w0000"
+		killTok = ""
+	}
+	toks := []string{"p", "p"}
+	for i := 0; i < n; i++ {
+		toks = append(toks, "g"+strconv.Itoa(i), "c"+strconv.Itoa(i)) // into a callback
+	}
+	toks = append(toks, "p")
+	if killTok != "" {
+		toks = append(toks, killTok)
+	}
+	toks = append(toks, "c0", "w")
+	if r.Chance(1, 2) {
+		toks = append(toks, "c0", "c0", "p")
+	}
+	toks = append(toks, "D", "w", "p")
+	return fmt.Sprintf("case n=%d order=fixed root=./ tree=%s ff=nil df=nil onfile=1 ondir=1 failcb=%s sched=%s",
+		n, b.String(), failcb, strings.Join(toks, ","))
+}
+
 func genCase(r *hx.Rand) string {
+	if r.Chance(1, 500) {
+		return wideCase(r)
+	}
 	budget := 3 + r.Intn(12)
 	tree := genTree(r, 3, &budget, true)
 	if r.Chance(9, 10) {
 		tree.listable = true
+	}
+	fam := r.Intn(16)
+	if fam == 13 {
+		// listing-failure family: one directory below the root cannot be listed
+		var ds []*node
+		var coll func(n *node)
+		coll = func(n *node) {
+			for _, k := range n.kids {
+				if k.dir {
+					ds = append(ds, k)
+					coll(k)
+				}
+			}
+		}
+		coll(tree)
+		if len(ds) > 0 {
+			tree.listable = true
+			ds[r.Intn(len(ds))].listable = false
+		}
 	}
 	var tb strings.Builder
 	tree.encode(&tb)
@@ -913,16 +1212,26 @@ func genCase(r *hx.Rand) string {
 	if r.Chance(1, 6) {
 		n = 1 + r.Intn(16)
 	}
+	if (fam == 9 || fam == 10 || fam == 11) && n < 2 {
+		n = 2
+	}
 	failcb := "-"
-	if r.Chance(1, 7) {
+	if r.Chance(1, 5) || fam == 11 {
 		var fs []string
+		den := 3
+		if fam == 11 {
+			den = 1 // every callback fails: several failures are in flight at once
+			if r.Chance(1, 2) {
+				den = 2
+			}
+		}
 		for _, f := range files {
-			if r.Chance(1, 3) {
+			if r.Chance(1, den) {
 				fs = append(fs, "f"+f)
 			}
 		}
 		for _, d := range dirs {
-			if r.Chance(1, 4) {
+			if r.Chance(1, den+1) {
 				fs = append(fs, "d"+d)
 			}
 		}
@@ -931,8 +1240,19 @@ func genCase(r *hx.Rand) string {
 		}
 	}
 	ci := func() string { return strconv.Itoa(r.Intn(n)) }
+	env := func() string { return []string{"x", "e", "t"}[r.Intn(3)] }
 	var toks []string
+	envP := 40 // one token in envP is an environment act
+	if fam == 14 {
+		envP = 8
+	}
 	randTok := func() string {
+		if r.Chance(1, envP) {
+			return env()
+		}
+		if r.Chance(1, 15) {
+			return "w"
+		}
 		switch r.Intn(10) {
 		case 0, 1, 2:
 			return "p"
@@ -950,13 +1270,15 @@ func genCase(r *hx.Rand) string {
 			toks = append(toks, "g"+strconv.Itoa((i+order)%n))
 		}
 	}
-	fam := r.Intn(10)
 	switch {
 	case fam < 4: // random
 		for i, l := 0, 5+r.Intn(70); i < l; i++ {
 			toks = append(toks, randTok())
 		}
-	case fam < 8: // adversarial: hold consumers in the gap while producers finish and the closer announces
+		if r.Chance(1, 2) {
+			toks = append(toks, "D", "w")
+		}
+	case fam < 7: // adversarial: hold consumers in the gap while producers finish and the closer announces
 		for i, l := 0, r.Intn(12); i < l; i++ {
 			toks = append(toks, randTok())
 		}
@@ -970,7 +1292,7 @@ func genCase(r *hx.Rand) string {
 		for i, l := 0, r.Intn(20); i < l; i++ {
 			toks = append(toks, "c"+ci())
 		}
-	case fam < 9: // hold one consumer, let the others work
+	case fam < 8: // hold one consumer, let the others work
 		h := r.Intn(n)
 		toks = append(toks, "g"+strconv.Itoa(h))
 		for i, l := 0, 5+r.Intn(40); i < l; i++ {
@@ -981,7 +1303,59 @@ func genCase(r *hx.Rand) string {
 			toks = append(toks, t)
 		}
 		toks = append(toks, "P", "K", "c"+strconv.Itoa(h))
-	default: // free run
+	case fam < 9: // free run
+	case fam < 12:
+		// kill while callbacks are running: the producer publishes, consumers enter callbacks and are held
+		// there; then an environment act (9, 10) or the return of a failing callback (11) kills the
+		// lifecycle; Wait is probed; the held callbacks return (their results must still be handled)
+		for i, l := 0, 1+r.Intn(4); i < l; i++ {
+			toks = append(toks, "p")
+		}
+		held := 1 + r.Intn(n)
+		for i := 0; i < held; i++ {
+			c := strconv.Itoa((i + order) % n)
+			toks = append(toks, "g"+c, "c"+c) // gap, then (if something is queued) into a callback
+		}
+		if fam != 11 || r.Chance(1, 3) {
+			toks = append(toks, env())
+		}
+		toks = append(toks, "w")
+		for i := 0; i < held; i++ {
+			c := strconv.Itoa((i + order) % n)
+			toks = append(toks, "c"+c)
+			if r.Chance(1, 2) {
+				toks = append(toks, "w")
+			}
+			if r.Chance(1, 3) {
+				toks = append(toks, "p")
+			}
+		}
+		for i, l := 0, r.Intn(10); i < l; i++ {
+			toks = append(toks, randTok())
+		}
+		toks = append(toks, "D", "w")
+	case fam < 13: // an environment act at a random point of a random schedule, then a deterministic drain
+		for i, l := 0, r.Intn(40); i < l; i++ {
+			toks = append(toks, randTok())
+		}
+		toks = append(toks, env())
+		for i, l := 0, r.Intn(25); i < l; i++ {
+			toks = append(toks, randTok())
+		}
+		toks = append(toks, "D", "w")
+	case fam < 14: // listing failure (inline descent), consumers interleaved, deterministic drain
+		for i, l := 0, r.Intn(30); i < l; i++ {
+			toks = append(toks, randTok())
+		}
+		if r.Chance(1, 2) {
+			toks = append(toks, "P")
+		}
+		toks = append(toks, "D", "w")
+	default: // dense environment acts
+		for i, l := 0, 5+r.Intn(50); i < l; i++ {
+			toks = append(toks, randTok())
+		}
+		toks = append(toks, "D", "w")
 	}
 	return fmt.Sprintf("case n=%d order=fixed root=%s tree=%s ff=%s df=%s onfile=%s ondir=%s failcb=%s sched=%s",
 		n, root, tb.String(), ff, df, onfile, ondir, failcb, strings.Join(toks, ","))
@@ -994,8 +1368,81 @@ func gen(n int) {
 	// the named witness: one consumer held in the gap, one file (lost on the pinned order)
 	fmt.Fprintln(w, "case n=1 order=fixed root=./ tree=d(a:f) ff=nil df=nil onfile=1 ondir=1 failcb=- sched=g0,P,k,c0,c0")
 	fmt.Fprintln(w, "case n=2 order=fixed root=./ tree=d(a:f,d:d(x:f)) ff=nil df=nil onfile=1 ondir=1 failcb=- sched=g1,g0,P,K,c0,c1")
-	for i := 2; i < n; i++ {
+	// named kill cases: Wait must not return while a callback runs (kill / error event / deadline while c0 is
+	// inside OnFile); the error of a callback that was running when another one killed the lifecycle is recorded;
+	// a listing error in the inline descent is recorded
+	fmt.Fprintln(w, "case n=2 order=fixed root=./ tree=d(a:f,b:f) ff=nil df=nil onfile=1 ondir=1 failcb=- sched=p,g0,c0,x,w,c1,c1,w,c0,w,D,w")
+	fmt.Fprintln(w, "case n=1 order=fixed root=./ tree=d(a:f,b:f) ff=nil df=nil onfile=1 ondir=1 failcb=f./a sched=p,g0,c0,t,w,c0,w,D,w")
+	fmt.Fprintln(w, "case n=2 order=fixed root=./ tree=d(a:f,b:f,c:f) ff=nil df=nil onfile=1 ondir=1 failcb=f./a;f./b sched=p,g0,c0,g1,c1,c0,w,c1,w,D,w")
+	fmt.Fprintln(w, "case n=2 order=fixed root=./ tree=d(a:f,b:f,c:f) ff=nil df=nil onfile=1 ondir=1 failcb=f./b sched=p,g0,c0,g1,c1,e,w,c1,w,c0,D,w")
+	fmt.Fprintln(w, "case n=1 order=fixed root=./ tree=d(a:f,d:x(x:f),e:f,g:d(y:f)) ff=nil df=nil onfile=1 ondir=1 failcb=- sched=p,g0,p,c0,w,D,w")
+	for i := 7; i < n; i++ {
 		fmt.Fprintln(w, genCase(r))
+	}
+}
+
+// lifecycleAPI checks, on the real jobsync.Lifecycle, the behaviour the model's `Ctx` / `errorsOf` /
+// `lifecycle.Error` transitions assume: strict Error appends and kills (also when already killed); Kill
+// cancels without adding an entry; the deadline kills by itself (a short lifetime is used; the loop's own
+// lifetime is the constant workers.DefaultTimeout); Errors() = the entries, then the context's error;
+// the first cause stays.
+func lifecycleAPI() {
+	var bad []string
+	chk := func(ok bool, what string) {
+		if !ok {
+			bad = append(bad, what)
+		}
+	}
+	kinds := func(errs []error) string {
+		var r []string
+		for _, e := range errs {
+			r = append(r, errStr(e))
+		}
+		return strings.Join(r, ";")
+	}
+	e1, e2 := &cbErr{"1"}, &cbErr{"2"}
+	// strict Error: append, then kill
+	lc := jobsync.NewLifecycle(time.Hour, true)
+	chk(!lc.IsKilled() && len(lc.Errors()) == 0, "fresh lifecycle is alive with no errors")
+	lc.Error(e1)
+	chk(lc.IsKilled(), "strict Error kills")
+	chk(kinds(lc.Errors()) == "cb:1;canceled", "Errors after Error = entry, canceled: "+kinds(lc.Errors()))
+	lc.Error(e2)
+	chk(kinds(lc.Errors()) == "cb:1;cb:2;canceled", "Error on a killed lifecycle still appends: "+kinds(lc.Errors()))
+	// Kill: no entry
+	lc = jobsync.NewLifecycle(time.Hour, true)
+	lc.Kill()
+	chk(lc.IsKilled() && kinds(lc.Errors()) == "canceled", "Kill cancels without an entry: "+kinds(lc.Errors()))
+	lc.Kill()
+	lc.Error(e1)
+	chk(kinds(lc.Errors()) == "cb:1;canceled", "Error after Kill appends: "+kinds(lc.Errors()))
+	// the deadline: wait generously for what must happen
+	lc = jobsync.NewLifecycle(20*time.Millisecond, true)
+	dl := time.Now().Add(30 * time.Second)
+	for !lc.IsKilled() && time.Now().Before(dl) {
+		time.Sleep(time.Millisecond)
+	}
+	chk(lc.IsKilled(), "the deadline kills")
+	chk(kinds(lc.Errors()) == "deadline", "Errors after the deadline = deadline: "+kinds(lc.Errors()))
+	lc.Kill()
+	chk(kinds(lc.Errors()) == "deadline", "Kill after the deadline changes nothing: "+kinds(lc.Errors()))
+	lc.Error(e1)
+	chk(kinds(lc.Errors()) == "cb:1;deadline", "Error after the deadline appends: "+kinds(lc.Errors()))
+	// step
+	lc = jobsync.NewLifecycle(time.Hour, true)
+	chk(lc.Step() == 0, "initial step 0")
+	lc.NextStep(fsloop.StepClose)
+	chk(lc.Step() == fsloop.StepClose, "NextStep sets the step")
+	// the injected deadline used by the gated replay is indistinguishable from the real one through the API
+	lp := fsloop.NewLoop(&fsloop.LoopData{Filespace: backing(&node{dir: true, listable: true}), Consumers: 1, Producents: 1}, nil)
+	lp.Run("")
+	lp.Wait()
+	chk(len(lp.Errors()) == 0, "empty walk ends without errors")
+	chk(injectTimeout(lp) && kinds(lp.Errors()) == "deadline", "injected deadline shows as deadline: "+kinds(lp.Errors()))
+	if len(bad) == 0 {
+		fmt.Println("lifecycle checks=14 verdict=ok")
+	} else {
+		fmt.Printf("lifecycle verdict=FAIL(%s)\n", strings.ReplaceAll(strings.Join(bad, "|"), " ", "_"))
 	}
 }
 
@@ -1033,6 +1480,8 @@ func main() {
 		users(n)
 	case "facts":
 		facts()
+	case "lifecycle":
+		lifecycleAPI()
 	default:
 		os.Exit(2)
 	}
